@@ -21,6 +21,11 @@ chk("C17", "exploration",
     "Trusts the shadow model's must-be-live rule and catch_unwind liveness probing; Miri covers only the short sequences it executes; sequences are sampled, not enumerated.",
     "runtime monitoring: shadow-model oracle + invariant hook over generated op histories; Miri UB interpreter", "DESIGN.md §4 C17")
 
+chk("C05", "exploration",
+    "Subprocess workers push generated hostile inputs (random bytes, UTF-8 and token soups, truncations, token/range mutations of every tests/*.sam and std/*.sam, multi-module sets with broken cross imports, nesting ladders) through parse, the token-yield oracle, formatting at two widths, type checking, text/IDE/terminal diagnostic rendering and whole-program compilation, every stage under catch_unwind; the driver owns watchdog, crash attribution and delta-debugging. Held = no panic/abort/stack overflow on in-bounds input, no confirmed hang, and no module without syntax error whose tree fails to account for every identifier/literal token.",
+    "Inputs are sampled; 'reasonably sized' for stack overflow is fixed as <= 8 KiB and nesting <= 256; the independent tokenizer is trusted on inputs without syntax errors (calibrated on the corpus); hangs are decided by a 100x re-run budget.",
+    "runtime monitoring: crash/hang monitor over generated inputs in subprocess workers + token-yield oracle", "DESIGN.md §4 C05")
+
 NA_REASON = "check under construction in this round (machinery not yet registered)"
 m = {
  "version": 1,
@@ -29,7 +34,7 @@ m = {
    "guard": "--cfg samlang_verif",
    "enable": "RUSTFLAGS='--cfg samlang_verif' cargo build --release --offline (the harness path-depends on /repo/crates/*, so /repo's working tree is rebuilt with hooks on)",
    "baseline_off_cmd": "cd /repo && cargo test --workspace --no-fail-fast --offline",
-   "source_commits": ["d1b5c81"],
+   "source_commits": ["ef9c61d"],
    "add_only": True,
  },
  "engines": [
